@@ -167,6 +167,37 @@ func findHoistable(st ast.Stmt) (*ast.CallExpr, *ast.FuncLit) {
 			if _, isLit := ast.Unparen(c.Fun).(*ast.FuncLit); isLit {
 				return nil, nil
 			}
+			// `x.list[IIFE].f.m(args)`: the index of the receiver expression
+			{
+				f := ast.Unparen(c.Fun)
+				for {
+					if se, isSel := f.(*ast.SelectorExpr); isSel {
+						f = ast.Unparen(se.X)
+						continue
+					}
+					break
+				}
+				if ie, isIdx := f.(*ast.IndexExpr); isIdx {
+					if call, fl := iifeOf(ie.Index); fl != nil && delitEligible(fl) {
+						all := append([]ast.Expr{}, others...)
+						all = append(all, ie.X)
+						all = append(all, c.Args...)
+						names := map[string]bool{}
+						okAll := true
+						for _, o := range all {
+							if !sideEffectFree(o) {
+								okAll = false
+							}
+							if r := rootIdent(o); r != "" {
+								names[r] = true
+							}
+						}
+						if okAll && !assignsTo(fl.Body, names) {
+							return call, fl
+						}
+					}
+				}
+			}
 			for i, a := range c.Args {
 				call, fl := iifeOf(a)
 				if fl == nil || !delitEligible(fl) {
@@ -231,6 +262,21 @@ func findHoistable(st ast.Stmt) (*ast.CallExpr, *ast.FuncLit) {
 	case *ast.ReturnStmt:
 		if len(x.Results) == 1 {
 			return try(x.Results[0], nil)
+		}
+		// `return IIFE, nil`: the literal is evaluated first anyway; the other results must be
+		// plain identifiers / literals (nothing whose evaluation could be reordered)
+		if len(x.Results) > 1 {
+			plain := true
+			for _, r := range x.Results[1:] {
+				switch ast.Unparen(r).(type) {
+				case *ast.Ident, *ast.BasicLit:
+				default:
+					plain = false
+				}
+			}
+			if plain {
+				return try(x.Results[0], nil)
+			}
 		}
 	case *ast.ExprStmt:
 		return try(x.X, nil)
@@ -344,6 +390,13 @@ func deliteralize(name string, src []byte, counter *int) ([]byte, int) {
 				if _, isExpr := st.(*ast.ExprStmt); isExpr && len(temps) == 0 && ast.Unparen(st.(*ast.ExprStmt).X) == ast.Expr(call) {
 					// the whole statement is the call
 					edits = append(edits, textEdit{off(st.Pos()), off(st.End()), pre.String()})
+				} else if es, isExpr := st.(*ast.ExprStmt); isExpr && ast.Unparen(es.X) == ast.Expr(call) {
+					// the whole statement is the call and its results are dropped
+					var drop strings.Builder
+					for _, t := range temps {
+						fmt.Fprintf(&drop, "_ = %s\n", t)
+					}
+					edits = append(edits, textEdit{off(st.Pos()), off(st.End()), pre.String() + drop.String()})
 				} else {
 					if len(temps) == 0 {
 						continue
